@@ -234,13 +234,15 @@ static void converge_run(Json& js, vh::Rng& rng) {
         }
     }
     N = std::min<long>(N, 60000);
+    // NLMS normalises by the input power: the level of the (white) input is free, -120 dB .. +40 dB
+    const double amp = rls ? 1.0 : std::pow(10.0, -6 + 8 * rng.unif());
     std::vector<T> xs;
     long done = 0;
     while (done < N) {
         const int fl = (int)std::min<long>(N - done, rng.range(1, 500));
         base_array<T> x(fl), d(fl);
         for (int i = 0; i < fl; ++i) {
-            x[i] = Tr<T>::mk(rng.gauss(), Tr<T>::cplx ? rng.gauss() : 0.0);
+            x[i] = Tr<T>::mk(amp * rng.gauss(), Tr<T>::cplx ? amp * rng.gauss() : 0.0);
             xs.push_back(x[i]);
             LC acc = 0;
             for (int j = 0; j < hlen; ++j) {
@@ -276,7 +278,7 @@ static void ref_run(Json& js, vh::Rng& rng) {
     const bool nlms = rng.range(0, 2) != 0;
     static const double LEAK[] = {1.0, 1.0, 0.999, 0.95};
     const double leak = LEAK[rng.range(0, 3)];
-    const double scale = std::pow(10.0, rng.range(-2, 2));
+    const double scale = std::pow(10.0, rng.range(-7, 3));   // signal level: 200 dB of range, adaptation does not care
     const double mu = nlms ? 0.1 + 1.3 * rng.unif() : (0.02 + 0.2 * rng.unif()) / (len * scale * scale * (Tr<T>::cplx ? 2 : 1));
     LmsFilter<T> f(len, mu, nlms ? LmsType::NLMS : LmsType::LMS, leak);
     std::vector<LC> w(len, LC(0, 0)), u(len, LC(0, 0));   // u[0] newest
@@ -351,9 +353,17 @@ static void rls_ls_run(Json& js, vh::Rng& rng) {
     const int gap_at = rng.range(0, 2) == 0 ? (int)rng.range(1, std::max(1, K - 1)) : -1;
     const int quiet_d = rng.range(0, 2) == 0 ? (int)rng.range(1, len + 3) : 0;
     std::vector<double> xs, ds;
+    // one run in three: the coefficients are locked for a stretch (whole frames).  Locked samples move the delay line and are
+    // filtered, but they are no observations: they enter neither the normal equations nor the forgetting
+    const int lock_at = rng.range(0, 2) == 0 ? (int)rng.range(0, K - 1) : -1;
+    const int lock_len = (int)rng.range(1, 3 * len + 6);
+    std::vector<char> lk;
     int done = 0;
     while (done < K) {
         const int fl = (int)std::min<long>(K - done, rng.range(1, 5));
+        const bool lock_now = lock_at >= 0 && done >= lock_at && done < lock_at + lock_len;
+        f.set_lock_coeffs(lock_now);
+        lk.insert(lk.end(), fl, (char)lock_now);
         arr_real x(fl), d(fl);
         for (int i = 0; i < fl; ++i) {
             x[i] = rng.gauss(), d[i] = rng.gauss();
@@ -375,11 +385,18 @@ static void rls_ls_run(Json& js, vh::Rng& rng) {
     }
     // normal equations in long double
     std::vector<std::vector<LD>> A(len, std::vector<LD>(len + 1, 0));
+    std::vector<int> after(K + 1, 0);   // observations (unlocked samples) after sample k
+    for (int k = K - 1; k >= 0; --k) {
+        after[k] = after[k + 1] + (lk[k] ? 0 : 1);
+    }
     for (int i = 0; i < len; ++i) {
-        A[i][i] = powl((LD)lam, K) / (LD)load;
+        A[i][i] = powl((LD)lam, after[0]) / (LD)load;
     }
     for (int k = 0; k < K; ++k) {
-        const LD wgt = powl((LD)lam, K - 1 - k);
+        if (lk[k]) {
+            continue;
+        }
+        const LD wgt = powl((LD)lam, after[k + 1]);
         std::vector<LD> u(len, 0);
         for (int j = 0; j < len; ++j) {
             if (k - j >= 0) {
